@@ -144,8 +144,17 @@ theorem feed_ok (cfg : Cfg) (ops : List Op) (h : WF cfg ops) :
 /-- the full reference checker (trace + service feed) accepts the canonical observation of every
     model run -/
 theorem check_all_ok (cfg : Cfg) (ops : List Op) (h : WF cfg ops) :
-    Spec.checkAll cfg ops ((obsOfRun (run cfg ops)).map canonStep) (some (feedOfRun (run cfg ops))) = .ok := by
+    Spec.checkAll cfg ops ((obsOfRun (run cfg ops)).map canonStep) (orderOfRun (run cfg ops))
+      (some (feedOfRun (run cfg ops))) = .ok := by
+  have hord : orderOfRun (run cfg ops) = true := by
+    obtain ⟨refs, e, _⟩ := refcount_eq_uses cfg ops h
+    unfold orderOfRun run
+    rw [nhtOfRun_eq]
+    unfold reqs at e
+    rw [e]; rfl
   unfold Spec.checkAll
+  rw [hord]
+  simp only [Bool.not_true, Bool.false_eq_true, if_false]
   rw [check_canon_ok cfg ops h]
   have hf := feed_ok cfg ops h
   unfold Spec.checkFeed at hf ⊢
